@@ -12,3 +12,4 @@ import SamVerif.Props.C15
 import SamVerif.Props.C06
 import SamVerif.Props.C05
 import SamVerif.Props.C13
+import SamVerif.Props.C11
